@@ -212,6 +212,17 @@ def run(ctx) -> None:
     stores = {ast.unparse(n.targets[0]): ast.unparse(n.value) for n in ast.walk(ini.node) if isinstance(n, ast.Assign) and len(n.targets) == 1} if ini else {}
     ctx.check(all(stores.get(f"self._{k}") == k for k in ("wd", "mask", "cookie", "name", "src_path")), RPd, "InotifyEvent.__init__ stores its parameters", f"constructor stores {stores}", ini.loc if ini else ie.loc)
 
+    # ---- the synthetic events of a moved / created tree name each descendant under the right old and new path (the rules of C14,
+    # shared: a synthetic moved event whose source is not "the old directory + the same relative path" is an event for an operation
+    # that never happened)
+    RSYN = ctx.rule(
+        "C03/synthetic-events-name-the-descendants",
+        "every synthetic sub-event carries join(walk root, name) as its path and, for moves, the prefix-anchored rewrite of that path from the new directory to the old one as its source; Dir classes for directories, File classes for files (instances shared with C14)",
+        floor=8,
+    )
+    from .c14 import generators as _c14_generators
+
+    _c14_generators(ctx, RSYN, RSYN, P)
     # ---- synthetic flag ownership
     from ..fixtures import FX_SYNTH, must_fire, synthetic_marks
 
@@ -227,6 +238,32 @@ def run(ctx) -> None:
                     other_sites.append((site, ch.lineno))
             else:
                 writes.append((m.relpath, ch.lineno, norm_stmt(ch)))
+    # a factory whose whole body is `return <constructor>(..., is_synthetic=True)` is as good as the constructor call itself,
+    # provided it is called from the sub-event generators only (e.g. a classmethod `Event.synthetic(src, dest)`)
+    def factory_only_from_generators(relpath: str, owner: str) -> bool:
+        mod = next((m for m in P.modules.values() if m.relpath == relpath), None)
+        defs = [n for n in ast.walk(mod.tree) if isinstance(n, ast.FunctionDef) and n.name == owner] if mod else []
+        if len(defs) != 1:
+            return False
+        body = [b for b in defs[0].body if not (isinstance(b, ast.Expr) and isinstance(b.value, ast.Constant))]
+        if not (len(body) == 1 and isinstance(body[0], ast.Return) and isinstance(body[0].value, ast.Call)):
+            return False
+        ncalls = 0
+        for m2 in P.modules.values():
+            for fn in ast.walk(m2.tree):
+                if not isinstance(fn, (ast.FunctionDef, ast.AsyncFunctionDef)):
+                    continue
+                for c in ast.walk(fn):
+                    if isinstance(c, ast.Call) and ((isinstance(c.func, ast.Attribute) and c.func.attr == owner) or (isinstance(c.func, ast.Name) and c.func.id == owner)):
+                        ncalls += 1
+                        if not (fn.name in GENERATORS and m2.name == "watchdog.events"):
+                            return False
+        return ncalls > 0
+
+    for site, ln in list(other_sites):
+        if site[1] not in GENERATORS and site[1] != "<module>" and factory_only_from_generators(site[0], site[1]):
+            other_sites.remove((site, ln))
+            gen_sites.add(site)
     ctx.count("modules_scanned", len(P.modules))
     for s in sorted(gen_sites):
         ctx.ok(R2, f"{s[1]}: {s[2]}", s[0])
